@@ -22,6 +22,7 @@ def parse_case_line(line):
     for sec in secs[1:]:
         if sec.startswith("S ") or sec == "S": sched = [int(x) for x in sec[1:].split()]
         else: progs.append([(tok.split(":")[0], [int(x) for x in tok.split(":")[1:]]) for tok in sec.split()])
+    if "ops" in params: return mk_stress(params["impl"], int(params["N"]), int(params["T"]), int(params["ops"]), int(params["seed"]))
     return mk_case(params["impl"], int(params["N"]), progs, sched)
 
 def gen_case(rng, impl, Ns=(2, 4, 8), lockstep=True, max_ops=5):
@@ -37,6 +38,24 @@ def gen_case(rng, impl, Ns=(2, 4, 8), lockstep=True, max_ops=5):
         sched = random_sched(rng, nthreads, rng.randint(0, total * 4), burst=rng.choice([0.3, 0.6, 0.85]))
         for _ in range(3 * max_ops + 6): sched += list(range(nthreads))
     return mk_case(impl, N, progs, sched)
+
+def mk_stress(impl, N, T, ops, seed):
+    """free-running: T threads, `ops` operations each in bursts of pushes / pops of unique values on a stack of capacity N, then a drain"""
+    return Case("stack impl=%s N=%d T=%d ops=%d seed=%d ; S" % (impl, N, T, ops, seed), None, dict(impl=impl, N=N, T=T, ops=ops, seed=seed, profile="stress"))
+
+def oracle_stress(case, recs):
+    """conservation: every accepted push is returned exactly once (by a pop or by the final drain), nothing else is returned, no panic"""
+    hits = []
+    r = {x[2]: (x[3], x[4]) for x in recs if x[0] == "ret"}
+    for x in recs:
+        if x[0] == "panic": hits.append((None, "a stack operation panicked in thread %d (index out of range / arithmetic underflow)" % x[1]))
+    if 31 in r:
+        acc, ret = r[31]; twice, never = r[32]
+        if twice: hits.append((None, "%d elements were returned twice" % twice))
+        if never: hits.append((None, "%d returned elements were never pushed" % never))
+        if acc != ret: hits.append((None, "%d pushes were accepted but %d elements came back (pops + final drain): elements were lost or duplicated" % (acc, ret)))
+    elif not hits: hits.append((None, "no result"))
+    return hits
 
 def history_of(case, recs):
     """-> list of dicts(inv, ret, op, res) from a lock-step trace or a free-running log"""
